@@ -489,14 +489,14 @@ Proof. intros [x|]; cbn [pr_body]; eexists; reflexivity. Qed.
 
 (* what follows a service item in printed text: the next item or the closing brace *)
 Definition item_next (r : list token) : Prop :=
-  exists q, r = tPn KAtDoc "@doc" :: q \/ r = tPn KAtHandler "@handler" :: q \/ r = tPn KRBrace "}" :: q.
+  exists q, r = tPn KAtDoc "@doc" :: q \/ r = tPn KAtHandler "@handler" :: q \/ exists b, r = T KRBrace "}" b :: q.
 
 Lemma item_next_facts : forall r, item_next r ->
   route_stop r = true /\ peek_in [KAtDoc; KAtHandler; KRBrace] r = true /\
   peek_text "returns" r = false /\ peek_is KLParen r = false /\
   peek_is KSemi r = false /\ skip_semi r = r /\ follow_item r = true /\
   peek_in [KAtDoc; KAtHandler; KRBrace; KSemi] r = true.
-Proof. intros r [q [H|[H|H]]]; subst r; repeat split; reflexivity. Qed.
+Proof. intros r [q [H|[H|[b H]]]]; subst r; repeat split; reflexivity. Qed.
 
 Lemma route_ok : forall r rest fuel, wf_route r = true -> item_next rest ->
   len (pr_route r ++ rest) < fuel -> p_route fuel (pr_route r ++ rest) = Some (r, rest).
@@ -534,7 +534,7 @@ Proof.
     destruct (pr_body_head bq) as (q & E).
     assert (E1 : forall X, pr_body bq ++ X = tP KLParen "(" :: q ++ X) by (intros; rewrite E; reflexivity).
     rewrite E1. pk. rewrite <- E1. rewrite body_ok.
-    destruct Hrest as [q' [H|[H|H]]]; subst rest; reflexivity.
+    destruct Hrest as [q' [H|[H|[b0 H]]]]; subst rest; reflexivity.
   - (* response only *)
     pk. rewrite body_ok. rewrite Hskip. reflexivity.
   - (* neither *)
@@ -686,7 +686,7 @@ Qed.
 Lemma service_tail_ok : forall srv n (a : bool) its rest fuel,
   forallb wf_item its = true ->
   let toks := [tIn "service"; tI n] ++ (if a then [tP KSub "-"; tI "api"] else []) ++ [tP KLBrace "{"] ++
-              flat_map pr_item its ++ [tPn KRBrace "}"] in
+              flat_map pr_item its ++ [rb_after its] in
   len (toks ++ rest) < fuel ->
   p_service_tail fuel srv (toks ++ rest) = Some (SService srv n a its, rest).
 Proof.
@@ -695,12 +695,12 @@ Proof.
   replace (is_text "service" (tIn "service")) with true by reflexivity.
   replace (is KIdent (tI n)) with true by reflexivity. replace (tx (tI n)) with n by reflexivity.
   cbn [andb].
-  assert (Hitems : forall f, len (flat_map pr_item its ++ tPn KRBrace "}" :: rest) < f ->
-            many f stop_rbrace follow_item (p_item fuel) (flat_map pr_item its ++ tPn KRBrace "}" :: rest)
-            = Some (its, tPn KRBrace "}" :: rest)).
+  assert (Hitems : forall f, len (flat_map pr_item its ++ rb_after its :: rest) < f ->
+            many f stop_rbrace follow_item (p_item fuel) (flat_map pr_item its ++ rb_after its :: rest)
+            = Some (its, rb_after its :: rest)).
   { intros f Hf.
-    apply (many_ok (p_item fuel) pr_item stop_rbrace follow_item item_next its (tPn KRBrace "}" :: rest)
-             (len (flat_map pr_item its ++ tPn KRBrace "}" :: rest))); auto.
+    apply (many_ok (p_item fuel) pr_item stop_rbrace follow_item item_next its (rb_after its :: rest)
+             (len (flat_map pr_item its ++ rb_after its :: rest))); auto.
     - intros i r Hin Hr HN. rewrite forallb_forall in Hwf.
       destruct (item_next_facts r Hr) as (_ & _ & _ & _ & _ & _ & Hfo & _).
       split; [destruct i as [[[s|l]|] h ro]; discriminate|].
@@ -708,14 +708,14 @@ Proof.
       split; [|exact Hfo].
       apply item_ok; auto. destruct a; cbn [app List.length] in Hlen; lia.
     - intros i r _. apply pr_item_next.
-    - eexists; auto. }
+    - unfold rb_after. eexists. right. right. eexists. reflexivity. }
   destruct a; cbn [app] in *.
   - replace (is KSub (tP KSub "-")) with true by reflexivity.
     replace (is_text "api" (tI "api")) with true by reflexivity.
     cbn [expect]. replace (is KLBrace (tP KLBrace "{")) with true by reflexivity.
     rewrite Hitems; [reflexivity|]. cbn [List.length] in *. lia.
   - replace (is KSub (tP KLBrace "{")) with false by reflexivity.
-    destruct (flat_map pr_item its ++ tPn KRBrace "}" :: rest) as [|t0 q0] eqn:E.
+    destruct (flat_map pr_item its ++ rb_after its :: rest) as [|t0 q0] eqn:E.
     { destruct (flat_map pr_item its); discriminate. }
     rewrite <- E in *. cbn [expect]. replace (is KLBrace (tP KLBrace "{")) with true by reflexivity.
     rewrite Hitems; [reflexivity|]. cbn [List.length] in *. lia.
@@ -815,7 +815,7 @@ Proof.
       replace (is KAtServer (tPn KAtServer "@server")) with true by reflexivity.
       cbn [expect]. replace (is KLParen (tP KLParen "(")) with true by reflexivity.
       set (TL := tIn "service" :: tI n :: (if a then [tP KSub "-"; tI "api"] else []) ++
-                  tP KLBrace "{" :: flat_map pr_item its ++ tPn KRBrace "}" :: rest) in *.
+                  tP KLBrace "{" :: flat_map pr_item its ++ rb_after its :: rest) in *.
       rewrite (many_ok (p_skv fuel) pr_skv stop_rparen follow_kv kv_next l (tPn KRParen ")" :: TL)
                  (len (flat_map pr_skv l ++ tPn KRParen ")" :: TL))); auto.
       * cbn [expect]. replace (is KRParen (tPn KRParen ")")) with true by reflexivity.
